@@ -207,6 +207,13 @@ def src(tag, cls=ast.expr, exclude=(), only=None, **kw):
     return Opaque(tag, cls, cands=cands, **kw)
 
 
+def fn_body():
+    """the body of a def/class node of a harness: never empty (the parser never produces an empty body),
+    two statements of unknown kind"""
+    return [src("first-statement", ast.stmt, only=[ast.Pass, ast.Expr, ast.Return, ast.If]),
+            src("last-statement", ast.stmt, only=[ast.Pass, ast.Expr, ast.Return, ast.If, ast.While])]
+
+
 def seg(tag, mk, length=None, like=None):
     c = ctx()
     if like is not None:
